@@ -426,12 +426,23 @@ class Check(core.PropertyCheck):
         log = str(base) + ".log"
         env = {"PATH": str(self._dir / "bin"), "BASH_ENV": str(self._dir / "env.sh"), "VF_LOG": log, "VF_OUT": str(base),
                "LC_ALL": "C.UTF-8", "HOME": str(self._dir)}
-        try:
-            p = subprocess.run(["/bin/bash", str(cmdfile)], env=env, cwd=str(self._dir / "run"), stdin=subprocess.DEVNULL,
-                               capture_output=True, timeout=20)
-            err = p.stderr
-        except subprocess.TimeoutExpired:
-            err = b"syntax error: timeout"
+        err = None
+        for _attempt in range(2):
+            for suf in (".argv", ".stdin", ".log"):
+                try:
+                    os.unlink(str(base) + suf)
+                except OSError:
+                    pass
+            try:
+                p = subprocess.run(["/bin/bash", str(cmdfile)], env=env, cwd=str(self._dir / "run"),
+                                   stdin=subprocess.DEVNULL, capture_output=True, timeout=300)
+                err = p.stderr
+                break
+            except subprocess.TimeoutExpired:
+                continue
+        if err is None:
+            # an overloaded machine, not a verdict about the export: machinery failure (exit 2)
+            raise RuntimeError("bash did not finish the exported command within 300 s (twice)")
         prog = "curl" if fmt == "curl" else "http"
         cmds, nprog, other = [], 0, 0
         try:
